@@ -134,7 +134,9 @@ static PROXY_CLNT *w_client(int dev, int msg)
   c->chn_state.last_start = (time_t) in_u32(); c->chn_state.last_duration = (time_t) in_u32();
   c->chn_prio = (VBI_CHN_PRIO) in_u32(); c->chn_status_ind = (VBI_PROXY_CHN_FLAGS) in_u32();
   c->p_next = NULL; c->dev_idx = dev; c->p_sliced = NULL;
-  V_ASSUME((unsigned) c->state <= REQ_STATE_FORWARD);                     /* CLOSED clients are unlinked at once */
+  /* between two events a connection is WAIT_CON_REQ or FORWARD: WAIT_CLOSE / CLOSED are left within the loop iteration that
+     entered them (proxyd.c:2442, 2516); the acting client of h_msg may be in WAIT_CLOSE too (msg != 0) */
+  V_ASSUME(c->state == REQ_STATE_WAIT_CON_REQ || c->state == REQ_STATE_FORWARD || (msg && c->state == REQ_STATE_WAIT_CLOSE));
   V_ASSUME((unsigned) c->chn_state.token_state <= REQ_TOKEN_RETURNED);
   c->buffer_count = W_CLBUF;                                              /* bound: buffers asked for by every client (concrete: it is the trip count of the allocation loops) */
   V_ASSUME(c->io.sock_fd >= 0 && c->io.sock_fd < 1024);
